@@ -300,3 +300,47 @@ Proof.
     apply andb_true_iff in H. destruct H as [H1 H2]. apply N.eqb_eq in H1. subst. f_equal. apply IH. exact H2. }
   subst k. destruct (assoc id c_idents) as [j|]; cbn in H; [|discriminate]. apply Z.eqb_eq in H. congruence.
 Qed.
+
+(* ------------------------------------------------------------------ the enum store: cast then read = wrap *)
+Lemma le_bytes_length : forall n v, List.length (le_bytes n v) = n.
+Proof. induction n; intros; cbn; [reflexivity|]. rewrite IHn. reflexivity. Qed.
+
+Lemma le_value_bytes : forall n v, le_value (le_bytes n v) = v mod 256 ^ Z.of_nat n.
+Proof.
+  induction n as [|n IH]; intros v.
+  - cbn. rewrite Z.mod_1_r. reflexivity.
+  - cbn [le_bytes le_value fold_right]. fold (le_value (le_bytes n (v / 256))). rewrite IH.
+    rewrite Nat2Z.inj_succ, Z.pow_succ_r by lia.
+    rewrite Z.rem_mul_r by (try lia; apply Z.pow_pos_nonneg; lia). reflexivity.
+Qed.
+
+Lemma pow256 : forall n, 256 ^ Z.of_nat n = 2 ^ (8 * Z.of_nat n).
+Proof. intros. change 256 with (2 ^ 8). rewrite <- Z.pow_mul_r by lia. reflexivity. Qed.
+
+Lemma cast_read_is_wrap : forall size signed x, (1 <= size <= 8)%nat ->
+  read_raw signed (cast_store size x) = wrap (Z.of_nat size) signed x.
+Proof.
+  intros size signed x Hs. unfold read_raw, cast_store, wrap.
+  rewrite le_bytes_length, le_value_bytes, pow256.
+  assert (E : (x mod 2 ^ 64) mod 2 ^ (8 * Z.of_nat size) = x mod 2 ^ (8 * Z.of_nat size)).
+  { replace (2 ^ 64) with (2 ^ (8 * Z.of_nat size) * 2 ^ (64 - 8 * Z.of_nat size))
+      by (rewrite <- Z.pow_add_r by lia; f_equal; lia).
+    set (a := 2 ^ (8 * Z.of_nat size)). set (b := 2 ^ (64 - 8 * Z.of_nat size)).
+    assert (Ha : 0 < a) by (apply Z.pow_pos_nonneg; lia).
+    assert (Hb : 0 < b) by (apply Z.pow_pos_nonneg; lia).
+    rewrite Z.rem_mul_r by lia.
+    rewrite (Z.mul_comm a ((x / a) mod b)), Z.mod_add by lia.
+    apply Z.mod_mod. lia. }
+  rewrite E. reflexivity.
+Qed.
+
+Lemma string_of_cast : forall size signed names vals x, (1 <= size <= 8)%nat ->
+  (signed = true -> - 2 ^ (8 * Z.of_nat size - 1) <= x < 2 ^ (8 * Z.of_nat size - 1)) ->
+  (signed = false -> 0 <= x < 2 ^ (8 * Z.of_nat size)) ->
+  enum_cast_string size signed names vals x =
+  match first_name names vals x with Some nm => nm | None => decimal x end.
+Proof.
+  intros size signed names vals x Hs H1 H2. unfold enum_cast_string.
+  rewrite cast_read_is_wrap by exact Hs. rewrite wrap_in_range by (try assumption; lia).
+  apply enum_string_correct.
+Qed.
